@@ -22,6 +22,11 @@ package main
 import (
 	"context"
 	"fmt"
+	grpct "github.com/synnaxlabs/aspen/transport/grpc"
+	fgrpc "github.com/synnaxlabs/freighter/grpc"
+	xnet "github.com/synnaxlabs/x/net"
+	"google.golang.org/grpc"
+	"google.golang.org/grpc/credentials/insecure"
 	"sort"
 	"strings"
 	"sync"
@@ -43,6 +48,7 @@ type msg = verifx.GossipMessage
 func main() {
 	harness.Main("C12", "exploration",
 		harness.Layer{Name: "seq", Run: layerSeq},
+		harness.Layer{Name: "seq-grpc", Run: layerSeqGRPC},
 		harness.Layer{Name: "conc", Run: layerConc},
 		harness.Layer{Name: "restart-real", Run: layerRestartReal},
 	)
@@ -97,7 +103,7 @@ type simNode struct {
 	addr      address.Address
 	store     verifx.Store
 	g         *verifx.Gossip
-	server    *fmock.UnaryServer[msg, msg]
+	server    freighter.UnaryServer[msg, msg]
 	client    *hookClient
 	persisted verifx.StoreState // what a restart loads (a flush that may lag behind)
 	prev      verifx.NodeGroup  // last observed view (monotonicity oracle)
@@ -114,6 +120,8 @@ type sim struct {
 	r         *prng.R
 	ctx       context.Context
 	net       *fmock.Network[msg, msg]
+	grpc      bool     // members talk over aspen's production gRPC transport on loopback
+	closers   []func() // transports to shut down when the case is over
 	cluster   uuid.UUID
 	nodes     []*simNode
 	log       []string
@@ -133,7 +141,7 @@ func (s *sim) logf(f string, a ...any) {
 }
 
 type hookClient struct {
-	inner *fmock.UnaryClient[msg, msg]
+	inner freighter.UnaryClient[msg, msg]
 	s     *sim
 	owner *simNode
 }
@@ -183,9 +191,32 @@ func (s *sim) newGossip(n *simNode) {
 }
 
 func (s *sim) addNode(key verifx.NodeKey, self verifx.Node, known verifx.NodeGroup) *simNode {
-	srv := s.net.UnaryServer("")
-	n := &simNode{key: key, addr: srv.Address, server: srv}
-	n.client = &hookClient{inner: s.net.UnaryClient(), s: s, owner: n}
+	var n *simNode
+	if s.grpc {
+		// the wiring of aspen.Open's default options
+		port, err := xnet.FindOpenPort()
+		if err != nil {
+			panic(fmt.Sprintf("no free port: %v", err))
+		}
+		addr := address.Newf("localhost:%d", port)
+		pool := fgrpc.NewPool("", grpc.WithTransportCredentials(insecure.NewCredentials()))
+		tr := grpct.New(pool)
+		if err := tr.Configure(addr, alamos.Instrumentation{}, false); err != nil {
+			panic(fmt.Sprintf("grpc transport: %v", err))
+		}
+		n = &simNode{key: key, addr: addr, server: tr.GossipServer()}
+		n.client = &hookClient{inner: tr.GossipClient(), s: s, owner: n}
+		s.closers = append(s.closers, func() { _ = tr.Close(); _ = pool.Close() })
+		defer func() {
+			if err := tr.Serve(); err != nil {
+				panic(fmt.Sprintf("grpc serve: %v", err))
+			}
+		}()
+	} else {
+		srv := s.net.UnaryServer("")
+		n = &simNode{key: key, addr: srv.Address, server: srv}
+		n.client = &hookClient{inner: s.net.UnaryClient(), s: s, owner: n}
+	}
 	n.store = verifx.NewStore(s.ctx)
 	self.Key = key
 	self.Address = n.addr
@@ -640,7 +671,12 @@ func (s *sim) diffViews() []viewDiff {
 func runCase(h *harness.H, layer string, c int) {
 	r := h.Rand(layer, c)
 	s := &sim{h: h, layer: layer, c: c, r: r, ctx: context.Background(),
-		net: fmock.NewNetwork[msg, msg]()}
+		net: fmock.NewNetwork[msg, msg](), grpc: layer == "seq-grpc"}
+	defer func() {
+		for _, f := range s.closers {
+			f()
+		}
+	}()
 	b := r.Bytes(16)
 	copy(s.cluster[:], b)
 	h.Eval()
@@ -670,6 +706,19 @@ func runCase(h *harness.H, layer string, c int) {
 		h.Distinct(s.shape.String())
 	}
 	h.Sample(map[string]any{"case": c, "nodes": len(s.nodes), "steps": s.log})
+}
+
+// layerSeqGRPC: the seq cases with every member behind aspen's production gRPC transport
+// (message translation to and from the wire format included) instead of the mock network.
+func layerSeqGRPC(h *harness.H) {
+	h.AddRule("seq-grpc: the seq cases (initial views, steps, closing phases, same oracles) with every member served by aspen/transport/grpc on a loopback port, so that gossip messages cross the protobuf translators; fewer cases, one worker")
+	n := h.N(120, 4000)
+	for c := 0; c < n; c++ {
+		if h.Skip("seq-grpc", c) {
+			continue
+		}
+		runCase(h, "seq-grpc", c)
+	}
 }
 
 func layerSeq(h *harness.H) {
